@@ -27,7 +27,7 @@ def run(env, res):
                 'yaml layout: flow style, JSON, first step on line 1, other indentation); a case is '
                 'non-trivial when the model accepts it and it terminates; distinct by canonical program text')
     directed = [('c02', fo.c02_family, env.n(900, 100000)), ('c01-straight', fo.c01_family, env.n(150, 2000))]
-    flowcheck.run_streams(env, res, directed, env.n(400, 15000), weights={'stop': 2, 'stoppipeline': 2, 'stopstepgroup': 2.5, 'jump': 2, 'call': 3, 'pype': 2, 'fail': 1.5},
+    flowcheck.run_streams(env, res, directed, env.n(400, 100000), weights={'stop': 2, 'stoppipeline': 2, 'stopstepgroup': 2.5, 'jump': 2, 'call': 3, 'pype': 2, 'fail': 1.5},
                           random_monitor=flowcheck.monitor_all)
 
 
